@@ -584,6 +584,15 @@ func sameEnc(kind string, a, b int64) bool {
 
 var allValKinds = []string{"none", "i8", "i16", "i32", "i64", "u16", "u32", "u64", "int", "str16", "bytesN", "structLE", "structBE", "rawstr", "defI64", "cpbytes"}
 
+// PassBytes: a user-defined variable-size encoder that hands the caller's
+// bytes through unchanged (C20: the builder must copy them).
+type PassBytes struct{}
+
+func (PassBytes) Encode(d interface{}) []byte        { return d.([]byte) }
+func (PassBytes) Decode(b []byte) (int, interface{}) { return len(b), b }
+func (PassBytes) GetSize(d interface{}) int          { return len(d.([]byte)) }
+func (PassBytes) GetEncodedSize(b []byte) int        { return len(b) }
+
 // pickKind chooses a value kind; n is the number of keys (i8 cannot give n
 // distinct values beyond 256 but duplicates are legitimate input anyway).
 func pickKind(r *RNG) string {
